@@ -408,6 +408,10 @@ pub fn gen_spec(rng: &mut Rng) -> AssetSpec {
         if rng.below(100) < tdensity {
             let v = typed_value(rng, i);
             typed_set(&mut s, i, true, v);
+        } else if rng.chance(1, 6) {
+            // a switched-off field that still carries a stale value: presence is the switch, not the value
+            let v = typed_value(rng, i) | 1;
+            typed_set(&mut s, i, false, v);
         }
     }
     s
@@ -511,6 +515,32 @@ pub fn run(cx: &mut Ctx) {
                 } else {
                     let k = rng.below(NSTR);
                     *str_field(&mut specs[i], k) = Some(u);
+                }
+            }
+            if !specs.is_empty() && rng.chance(1, 25) {
+                // two distinct strings that collide under a common hash function, somewhere in the file;
+                // or a few strings of one numbered family
+                if rng.bool() {
+                    let (a, b) = *rng.pick(&crate::refs::strings::COLLIDING_PAIRS);
+                    for x in [a, b] {
+                        let i = rng.below(specs.len());
+                        if rng.chance(1, 3) {
+                            specs[i].name = Some(x.to_string());
+                        } else {
+                            let k = rng.below(NSTR);
+                            *str_field(&mut specs[i], k) = Some(x.to_string());
+                        }
+                    }
+                } else {
+                    let base = rng.range(300, 360);
+                    for (j, sp) in specs.iter_mut().enumerate() {
+                        sp.name = Some(format!("MID_{:05}", base + j));
+                        for k in 0..NSTR {
+                            if rng.chance(1, 2) {
+                                *str_field(sp, k) = Some(format!("MID_{:05}", base + 20 * k + j));
+                            }
+                        }
+                    }
                 }
             }
             let flags = rng.u32();
